@@ -78,6 +78,28 @@ Part 10 runs after EVERY single-packet start (all declarations), directly and th
     T0|T1 (change the tracked field), RD, PK, DEL, RD   in pure and in observed mode;
 Part 11 runs it on every inner packet of every nested start (PK packs the outer).  Counters explicit_equal_<origin>_* record, per way
 of coming to be, the reads / packs after the tracked field changed, the deletes and the reads after the delete of such packets.
+Part 12: the DESCRIBED field itself carries a wrapper or modifier.
+    optional   length = Int(n).when(cond).describe(AutoLength('value')) / .describe(Auto(func)); cond is taken from an earlier plain
+               field (has, flag == 1, has != 0), true and false in the unpacked data.  Also positioned: .when(..).describe(..).at(3) and
+               .when(..).aligned(4).describe(..); embedded (Ref(Body, embed=True), operations on the outer packet); nested in
+               Ref(Inner) / Ref(Inner).repeated(n).
+               What the unchanged tree + docs fix: describe() applied to the Optional makes the class attribute the descriptor
+               (isinstance(C.length, AutoLength), the documentation's own test), so the statement applies as to any described field:
+               the attribute reads the computed value in a fresh packet, after unpack (condition true OR false: nothing was assigned)
+               and after a delete.  The presence rule of an optional field on pack is documented in Field.when: "The 'when'
+               condition has no effect neither in a default packet nor during the packing phase"; "If a field is not parsed, None
+               is used as the value": the field is omitted exactly when its value is None.  Together with "pack() serializes exactly
+               what the attribute currently reads as": attribute reads a number -> that number is on the wire at the field's place
+               (whatever the condition field says); attribute reads None (only possible by assigning None: operation DN, keyword
+               None) -> the field is omitted.  Model value None = absent; `DN DEL` returns to the computed state.
+    repeated   mirror = Int(1).repeated(n).describe(Auto(func returning a list)): the values are lists; the reference encoding
+               writes every element of the list the attribute reads (n is a plain field, not interpreted on pack).
+    Not judged (recorded by probe_unjudged_declarations): .describe(..).when(..) and .describe(..).repeated(..) - the library accepts
+    them but the class attribute is the undescribed wrapper (no descriptor; reads None / [] in a fresh packet): the field is not
+    "described" in the sense of the statement; .repeated(n).describe(AutoLength(..)): the computed int is no value of a list field.
+    Operations: the usual 7 + DN (8, 9 with TN); starts: the usual + C(described=None), C(described=None, tracked=v) + unpacked data
+    with the condition false / true; histories through Parts 1, 2, 6, 7, 10 (with the scripts DN RD PK DEL RD PK ..., also through
+    copies) and nested Parts 3, 8, 11.
 """
 import copy
 import itertools
@@ -143,6 +165,37 @@ REQUIRED = (
     "copy_histories", "explicit_equal_script_histories", "nested_explicit_equal_script_histories", "nested_copied_outer_histories",
     "nested_optional_ref_default_histories", "nested_repeated_default_element_histories",
     "nested_instance_prototype_histories_consdefault",
+    # Part 12: the described field itself is optional / optional + positioned / repeated
+    "optional_described_histories", "optional_described_two_packet_histories", "optional_described_failing_read_histories",
+    "optional_described_none_script_histories", "positioned_optional_described_histories", "embedded_optional_described_histories",
+    "wrapped_described_class_attribute_is_descriptor",
+    "optional_described_unpacks_condition_true", "optional_described_unpacks_condition_false",
+    "optional_described_reads_computed_after_unpack_condition_false", "optional_described_reads_computed_after_none_then_delete",
+    "optional_described_reads_none_while_assigned_none",
+    "optional_described_packs_in_computed_state", "optional_described_packs_in_computed_state_condition_field_says_absent",
+    "optional_described_packs_in_computed_state_with_hidden_none", "optional_described_packs_in_computed_state_fresh_packet",
+    "optional_described_packs_in_computed_state_after_unpack_condition_false",
+    "optional_described_packs_in_computed_state_after_none_then_delete",
+    "optional_described_packs_assigned_none_field_omitted", "optional_described_packs_assigned_value",
+    "optional_described_none_assigned", "optional_described_deletes_while_assigned_none",
+    "optional_described_generic_packs_in_computed_state_with_hidden_none",
+    "optional_described_generated_packs_in_computed_state_with_hidden_none",
+    "optional_described_generic_packs_in_computed_state_after_unpack_condition_false",
+    "optional_described_generated_packs_in_computed_state_after_unpack_condition_false",
+    "optional_described_generic_packs_in_computed_state_after_none_then_delete",
+    "optional_described_generated_packs_in_computed_state_after_none_then_delete",
+    "optional_described_generic_packs_assigned_none_field_omitted", "optional_described_generated_packs_assigned_none_field_omitted",
+    "optional_described_generic_packs_auto_after_tracked_change", "optional_described_generated_packs_auto_after_tracked_change",
+    "nested_optional_described_histories", "nested_optional_described_histories_ref", "nested_optional_described_histories_seq",
+    "nested_optional_described_packs_in_computed_state_with_hidden_none",
+    "nested_optional_described_generic_inner_packs_in_computed_state_with_hidden_none",
+    "nested_optional_described_generated_inner_packs_in_computed_state_with_hidden_none",
+    "nested_optional_described_packs_in_computed_state_after_unpack_condition_false",
+    "nested_optional_described_packs_assigned_none_field_omitted", "nested_optional_described_deletes_while_assigned_none",
+    "repeated_described_histories", "repeated_described_two_packet_histories", "repeated_described_failing_read_histories",
+    "repeated_described_generic_packs_auto_after_tracked_change", "repeated_described_generated_packs_auto_after_tracked_change",
+    "repeated_described_generic_packs_explicit_inconsistent", "repeated_described_generated_packs_explicit_inconsistent",
+    "unjudged_declarations_observed",
 ) + tuple("explicit_equal_%s_%s" % (_o, _e)
           for _o in ("constructor", "prototype_instance", "repeated_default_element", "optional_ref_default", "deepcopy", "pickle",
                      "prototype_clone", "outer_deepcopy", "outer_pickle", "outer_prototype_clone")
@@ -182,6 +235,17 @@ RULE = {
              "1..3 (1..2 for vectorize=False) over the 7 operations + the copy operation that contains it; Part 10: every class x every "
              "start x {no copy, 3 copies} x {T0, T1} followed by RD PK DEL RD, pure and observed; Part 11: the same script on every "
              "inner packet of every nested start. "
+             "Part 12 (the described field itself wrapped; operations + DN = assign None, starts + C(described=None[, tracked=v])): 5 optional "
+             "declarations Int(n).when(cond).describe(AutoLength|Auto) (until-marker Data; Data sized by the described field; general Auto; "
+             "+ .at(3); + .aligned(4)), their embedded form, and Int(1).repeated(n).describe(Auto(list)) x 3 option sets x all starts "
+             "(unpacked data with the condition false and true): every sequence of length 1..3 over the 8 (repeated: 7) operations + observed "
+             "length 2 for optdesc_marker and repdesc_list (generic, default), length 1..2 + observed 2 for the other declarations and for "
+             "vectorize=False (the other declarations under vectorize=False: pure mode only); two-packet histories (marker, repeated) length 1..2; failing computed reads (Parts 6, 7) for marker and "
+             "repeated only; per start the None scripts DN RD PK DEL RD PK / DN DEL PK T0 PK / PK DN DEL PK and three scripts through one "
+             "way of copying (rotating with the start); nested Ref(Inner) / Ref(Inner).repeated(n) with Inner = optdesc_marker (generic, "
+             "default inner; class prototype and tracked-keyword instance prototype; Parts 3, 11; Part 8 through Ref(Inner) only). "
+             "Rebalanced to make room for Part 12: the nested failing-read histories (Part 8) run with the generic and default inner "
+             "classes only in this tier (vectorize=False inner: thorough tier). "
              "Exhaustive for these bounds (the seeded samples of Part 7 are an addition beyond them). A history is non-trivial when start+operations contain at least "
              "one assignment/deletion/keyword/unpack affecting the described or tracked field (i.e. not only reads and packs of "
              "a plain C()); distinct = distinct (class, start, mode, operation sequence).",
@@ -193,6 +257,10 @@ RULE = {
                 "repeated Ref 1..3. "
                 "Parts 9-11: copy histories of length 1..4 from all starts; optional-Ref-default outers length 1..4, default-element "
                 "outers 1..3, copied outers Ref 1..3 / repeated Ref 1..2; instance prototypes also with the vectorize=False inner. "
+                "Part 12 layouts: length 1..4 (pure) / 3 (observed) for every declaration and option set, two-packet histories 1..3, "
+                "nested Ref 1..4 / repeated Ref 1..3, "
+                "failing reads for all non-positioned declarations, all three ways of copying in the None scripts, nested also with the "
+                "vectorize=False inner. "
                 "Exhaustive for these bounds (the seeded samples of Part 7 are an addition beyond them). "
                 "Non-trivial as in quick; distinct = distinct (class, start, mode, first<=4 operations (<=3 in Part 2)) groups (the exact number "
                 "of executed histories is in counters histories_pure / histories_observed / two_packet_histories).",
@@ -228,6 +296,16 @@ ASSUMPTIONS = [
     "of the packet it was taken of: explicitly assigned exactly when that one was (also when the assigned value equals the computed "
     "one, in which case both read like an automatic packet until the tracked field changes), and the packet it was taken of is not "
     "affected by operations on the copy; if a copy operation returns the very same object nothing is judged about it (counted)",
+    "optional described field (Int(n).when(cond).describe(...)): the statement applies unchanged; a packet that was constructed "
+    "without the keyword, unpacked (whether or not the condition let the field be parsed) or released by del reads the computed value; "
+    "the presence rule on pack is the documented one of Field.when (the condition has no effect when packing; None is the value of "
+    "a field that is not there): the field is omitted exactly when the attribute reads None, which only an explicit assignment of "
+    "None (attribute or keyword) produces; otherwise the number the attribute reads is serialized at the field's place, also when "
+    "the condition field of the same packet says 'absent' (unpack(raw).pack() == raw is not demanded and does not hold then)",
+    "declarations with the wrapper applied after describe() (.describe(..).when(..), .describe(..).repeated(..)) are accepted by the "
+    "library but install no descriptor (isinstance(C.name, AutoLength) is False): such a field is not 'described' in the sense of "
+    "the statement and is only recorded; AutoLength on a repeated field computes an int a list field cannot hold: recorded only",
+    "the hidden slot _described_<name> is read by the harness for COUNTING only (which state a pack started from), never for a verdict",
     "chained variant: the extra slot prev is harness state (additional_slots); total of packet 1 = (len(value) + total of packet 0 as "
     "it currently reads) & 0xff; the second described field n of that class is never assigned and must pack as len(value)",
 ]
@@ -415,12 +493,119 @@ VARIANTS.extend([
     _embedded_variant(_by_name("optional_tracked"), "emb_optional_tracked", True, False),
 ])
 PLAIN_VARIANTS = [v for v in VARIANTS if v.get("plain")]
+
+
+def _f_range(n):
+    return list(range(n))
+
+
+# ---- Part 12: the DESCRIBED field itself carries a wrapper: optional (.when(cond).describe(..)), optional + positioned,
+# repeated (.repeated(n).describe(Auto(func returning a list))).  "present": does the condition (taken from an earlier plain
+# field) say that unpack parses the field.  "deep": histories up to the short bound LP (the others one operation less in the
+# quick tier).  "M" layout item: literal bytes (the end marker of Data(until_marker=..)); "DL": described list of Int(w).
+OPTDESC_VARIANTS = [
+    {
+        "name": "optdesc_marker", "group": "optional_described", "optdesc": True, "two": True, "deep": True, "nested_lite": True,
+        "body": "    has = Int(1)\n"
+                "    length = Int(1).when(has).describe(AutoLength('value'))\n"
+                "    value = Data(until_marker=b'\\x00')\n",
+        "described": "length", "tracked": "value", "others": ["has"],
+        "layout": [("has", 1), ("D", 1), ("T",), ("M", b"\x00")],
+        "f": _f_len, "tv": [b"ab", b"wxyz!"], "default": b"",
+        "k_incons": 7, "present": lambda o: bool(o["has"]),
+        # has == 0: the described field is not in the data; has == 1 with a length byte that differs from the data
+        "raws": [(b"\x00xy\x00", b"xy", {"has": 0}), (b"\x01\x02ab\x00", b"ab", {"has": 1}),
+                 (b"\x00\x00", b"", {"has": 0}), (b"\x01\x09abc\x00", b"abc", {"has": 1})],
+    },
+    {
+        "name": "optdesc_sized", "group": "optional_described", "optdesc": True,
+        "body": "    flag = Int(1)\n"
+                "    length = Int(2).when(flag == 1).describe(AutoLength('value'))\n"
+                "    value = Data(length)\n"
+                "    tail = Int(1)\n",
+        "described": "length", "tracked": "value", "others": ["flag", "tail"],
+        "layout": [("flag", 1), ("D", 2), ("T",), ("tail", 1)],
+        "f": _f_len, "tv": [b"ab", b"wxyz!"], "default": b"",
+        "k_incons": 0x0107, "present": lambda o: o["flag"] == 1,
+        # the tracked field is sized by the described one: only data with the field present can be unpacked
+        "raws": [(b"\x01\x00\x02ab\x09", b"ab", {"flag": 1, "tail": 9}), (b"\x01\x00\x00\x80", b"", {"flag": 1, "tail": 128})],
+    },
+    {
+        "name": "optdesc_auto", "group": "optional_described", "optdesc": True,
+        "body": "    has = Int(1)\n"
+                "    length = Int(1).when(has != 0).describe(Auto(lambda pkt: (len(pkt.value) * 2 + 1) & 0xff))\n"
+                "    value = Data(until_marker=b'\\x00')\n",
+        "described": "length", "tracked": "value", "others": ["has"],
+        "layout": [("has", 1), ("D", 1), ("T",), ("M", b"\x00")],
+        "f": _f_auto, "tv": [b"ab", b"wxyz!"], "default": b"",
+        "k_incons": 8, "present": lambda o: o["has"] != 0,
+        # raw length byte 4 but f = 5: the attribute must read 5 (computed)
+        "raws": [(b"\x00ab\x00", b"ab", {"has": 0}), (b"\x05\x04ab\x00", b"ab", {"has": 5}), (b"\x00\x00", b"", {"has": 0})],
+    },
+    {
+        "name": "optdesc_pos_at", "group": "optional_described", "optdesc": True, "optpos": True,
+        "body": "    has = Int(1)\n"
+                "    length = Int(1).when(has).describe(AutoLength('value')).at(3)\n"
+                "    value = Data(until_marker=b'\\x00')\n",
+        "described": "length", "tracked": "value", "others": ["has"],
+        "layout": [("has", 1), ("at", 3), ("D", 1), ("T",), ("M", b"\x00")],
+        "f": _f_len, "tv": [b"ab", b"wxyz!"], "default": b"",
+        "k_incons": 7, "present": lambda o: bool(o["has"]),
+        "raws": [(b"\x00..xy\x00", b"xy", {"has": 0}), (b"\x01..\x02ab\x00", b"ab", {"has": 1}), (b"\x00..\x00", b"", {"has": 0})],
+    },
+    {
+        "name": "optdesc_pos_aligned", "group": "optional_described", "optdesc": True, "optpos": True,
+        "body": "    tag = Int(1)\n"
+                "    length = Int(2).when(tag == 1).aligned(4).describe(AutoLength('value'))\n"
+                "    value = Data(length)\n",
+        "described": "length", "tracked": "value", "others": ["tag"],
+        "layout": [("tag", 1), ("align", 4), ("D", 2), ("T",)],
+        "f": _f_len, "tv": [b"ab", b"wxyz!"], "default": b"",
+        "k_incons": 0x0107, "present": lambda o: o["tag"] == 1,
+        "raws": [(b"\x01...\x00\x02ab", b"ab", {"tag": 1}), (b"\x01...\x00\x00", b"", {"tag": 1})],
+    },
+    {
+        "name": "repdesc_list", "group": "repeated_described", "two": True, "deep": True,
+        "body": "    n = Int(1)\n"
+                "    mirror = Int(1).repeated(n).describe(Auto(lambda pkt: list(range(len(pkt.value)))))\n"
+                "    value = Data(n)\n",
+        "described": "mirror", "tracked": "value", "others": ["n"],
+        "layout": [("n", 1), ("DL", 1), ("T",)],
+        "f": _f_range, "tv": [b"ab", b"wxyz!"], "default": b"",
+        "k_incons": [7, 7, 7],
+        # the parsed elements 9, 8 differ from the computed list [0, 1]
+        "raws": [(b"\x02\x09\x08ab", b"ab", {"n": 2}), (b"\x00", b"", {"n": 0}), (b"\x03\x00\x01\x02q\x00r", b"q\x00r", {"n": 3})],
+    },
+]
+VARIANTS.extend(OPTDESC_VARIANTS)
+_v = _embedded_variant(OPTDESC_VARIANTS[0], "emb_optdesc_marker", True, True)
+_v.update({"group": "optional_described", "deep": False, "nested_lite": False})
+VARIANTS.append(_v)
+NESTED_VARIANTS = PLAIN_VARIANTS + [v for v in VARIANTS if v.get("nested_lite")]
 FILL = b"."
 _BROKEN = "<no computed value: tracked field is None>"     # compared by identity only
 
 OPS = ("T0", "T1", "D0", "D1", "DEL", "RD", "PK")
 OPS8 = OPS + ("TN",)
-STATE_CHANGING = ("T0", "T1", "D0", "D1", "DEL", "TN")
+STATE_CHANGING = ("T0", "T1", "D0", "D1", "DEL", "TN", "DN")
+NEW_GROUPS = ("optional_described", "repeated_described")
+# counters of the optional described layouts that are also reported per code path (generic / generated)
+OD_PATH_COUNTERS = (
+    "optional_described_packs_in_computed_state_with_hidden_none",
+    "optional_described_packs_in_computed_state_after_unpack_condition_false",
+    "optional_described_packs_in_computed_state_after_none_then_delete",
+    "optional_described_packs_assigned_none_field_omitted",
+)
+
+
+def ops_for(v, tn=False):
+    """Operation alphabet of a variant: an optional described field also gets DN (assign None = 'absent' to the described
+    attribute; `DN DEL` is the way back to the computed state with nothing stored for the field)."""
+    return OPS + (("DN",) if v.get("optdesc") else ()) + (("TN",) if tn else ())
+
+
+def two_ops_for(v, tn=False):
+    return tuple((i, op) for i in (0, 1) for op in ops_for(v, tn))
 
 # ---- Part 9..11: every way a packet comes to be, in the state "explicitly assigned a value EQUAL to the computed one"
 # copy operations: the live packet is replaced by a copy of itself (the model is not touched: a copy is in the same state)
@@ -484,6 +669,10 @@ def starts_for(v):
     ]
     for raw, parsed, others in v["raws"]:
         out.append(["unpack", raw, parsed, others])
+    if v.get("optdesc"):
+        # None passed by keyword: explicitly assigned "absent" (appended after the unpack starts: indices stay put)
+        out.append(["ctor", {d: None}])
+        out.append(["ctor", {d: None, t: tv1}])
     return out
 
 
@@ -507,9 +696,13 @@ class Ctx:
         self.tv = variant["tv"]
         f = self.f
         self.kv = [f(len(self.tv[0])), variant["k_incons"]]   # D0: consistent with tv0, D1: never consistent
-        reachable = {f(len(variant["default"] or b"")), f(len(self.tv[0])), f(len(self.tv[1]))}
-        reachable |= {f(len(p or b"")) for _, p, _ in variant["raws"]}
+        reachable = [f(len(variant["default"] or b"")), f(len(self.tv[0])), f(len(self.tv[1]))]
+        reachable += [f(len(p or b"")) for _, p, _ in variant["raws"]]
         assert variant["k_incons"] not in reachable
+        self.optdesc = bool(variant.get("optdesc"))           # the described field is optional: None = absent, packs as nothing
+        self.present = variant.get("present")
+        self.hidden_name = "_described_" + self.dname        # read for COUNTING only (which internal state a pack started from)
+        self.ops = ops_for(variant)
         self.chained = bool(variant.get("chained"))
         self.none_ok = bool(variant.get("none_packs_empty"))   # None is a regular value of the tracked field (packs as nothing)
         self.group = variant.get("group")
@@ -521,7 +714,12 @@ class Ctx:
         out = b""
         for item in self.layout:
             if item[0] == "D":
-                out += int(visible).to_bytes(item[1], "big")
+                if visible is not None:          # optional described field reading None: absent, nothing on the wire
+                    out += int(visible).to_bytes(item[1], "big")
+            elif item[0] == "DL":
+                out += b"".join(int(x).to_bytes(item[1], "big") for x in visible)
+            elif item[0] == "M":
+                out += item[1]
             elif item[0] == "T":
                 out += b"" if tracked is None else bytes(tracked)
             elif item[0] == "L":
@@ -579,6 +777,18 @@ def execute(ctx, starts, ops, mode, st, states=None):
             return ("start raised %s" % type(e).__name__, {"step": -1, "error": "%s: %s" % (type(e).__name__, str(e)[:300])})
         pk.append(p)
         md.append(m)
+    optdesc = ctx.optdesc
+    # optional described field: how each packet came to be / what was done last (for the counters only)
+    came = []
+    none_then_deleted = [False] * len(pk)
+    if optdesc:
+        for s in starts:
+            if s[0] == "ctor":
+                came.append("keyword" if dname in s[1] else "fresh")
+            else:
+                came.append("present" if ctx.present(s[3]) else "absent")
+                st.add("optional_described_unpacks_condition_true" if came[-1] == "present"
+                       else "optional_described_unpacks_condition_false")
     failed = [False] * len(pk)      # a computed read of this packet raised (tracked field None) earlier in the history
     nfailed = [0]
     origs = []                      # (original packet, frozen model) left behind by the copy operations
@@ -654,6 +864,38 @@ def execute(ctx, starts, ops, mode, st, states=None):
             else:
                 st.add("computed_reads_after_failed_read_on_other_instance")
 
+    _missing = object()
+
+    def od_note_pack(i, p):
+        # a judged pack of a packet whose described field is optional: which state does it start from (counting only)
+        m = md[i]
+        if m[0]:
+            st.add("optional_described_packs_assigned_none_field_omitted" if m[1] is None
+                   else "optional_described_packs_assigned_value")
+            return
+        st.add("optional_described_packs_in_computed_state")
+        if m[3] and not ctx.present(m[3]):
+            st.add("optional_described_packs_in_computed_state_condition_field_says_absent")
+        if getattr(p, ctx.hidden_name, _missing) is None:
+            st.add("optional_described_packs_in_computed_state_with_hidden_none")
+            if none_then_deleted[i]:
+                st.add("optional_described_packs_in_computed_state_after_none_then_delete")
+            elif came[i] == "absent":
+                st.add("optional_described_packs_in_computed_state_after_unpack_condition_false")
+            elif came[i] == "fresh":
+                st.add("optional_described_packs_in_computed_state_fresh_packet")
+
+    def od_note_read(i, r):
+        m = md[i]
+        if m[0]:
+            if m[1] is None:
+                st.add("optional_described_reads_none_while_assigned_none")
+        else:
+            if came[i] == "absent" and m[5] is False:
+                st.add("optional_described_reads_computed_after_unpack_condition_false")
+            if none_then_deleted[i]:
+                st.add("optional_described_reads_computed_after_none_then_delete")
+
     def unjudged_pack(p):
         try:
             p.pack()
@@ -702,6 +944,8 @@ def execute(ctx, starts, ops, mode, st, states=None):
                     note_computed_read(i)
                 if m[6]:
                     origin_event(i, "reads")
+                if optdesc:
+                    od_note_read(i, r)
             reads.append((r, t, o))
         # 2. pack every packet, compare with the reference encoding of what was just read
         for i, p in enumerate(pk):
@@ -711,6 +955,8 @@ def execute(ctx, starts, ops, mode, st, states=None):
                 unjudged_pack(p)
                 continue
             want = ctx.encode(r, t, o)
+            if optdesc:
+                od_note_pack(i, p)
             for attempt in attempts:
                 try:
                     b = p.pack()
@@ -795,11 +1041,24 @@ def execute(ctx, starts, ops, mode, st, states=None):
                 val = ctx.kv[0 if op == "D0" else 1]
                 if m[0]:
                     st.add("sets_while_explicit")
-                setattr(p, dname, val)
-                m[0], m[1] = True, val
+                setattr(p, dname, _fresh(val))
+                m[0], m[1] = True, _fresh(val)
                 m[6] = None
                 if m[5] is False:
                     m[5] = True
+                if optdesc:
+                    none_then_deleted[i] = False
+            elif op == "DN":
+                # optional described field: None = "absent" assigned explicitly
+                if m[0]:
+                    st.add("sets_while_explicit")
+                setattr(p, dname, None)
+                m[0], m[1] = True, None
+                m[6] = None
+                if m[5] is False:
+                    m[5] = True
+                none_then_deleted[i] = False
+                st.add("optional_described_none_assigned")
             elif op in COPY_KIND:
                 kind = COPY_KIND[op]
                 newp = _copy_packet(p, kind)
@@ -823,6 +1082,9 @@ def execute(ctx, starts, ops, mode, st, states=None):
                         raise
                     st.add("delete_while_not_assigned_raised_not_judged")
                 st.add("deletes_while_explicit" if was else "deletes_while_auto")
+                if optdesc and was and m[1] is None:
+                    none_then_deleted[i] = True
+                    st.add("optional_described_deletes_while_assigned_none")
                 m[0] = False
             elif op == "RD":
                 want = visible(i)
@@ -842,11 +1104,15 @@ def execute(ctx, starts, ops, mode, st, states=None):
                         note_computed_read(i)
                     if m[6]:
                         origin_event(i, "reads")
+                    if optdesc:
+                        od_note_read(i, r)
             elif op == "PK":
                 vis = visible(i)
                 if vis is _BROKEN or (m[2] is None and not none_ok):
                     unjudged_pack(p)
                 else:
+                    if optdesc:
+                        od_note_pack(i, p)
                     b = p.pack()
                     st.add("packs_compared")
                     if m[6]:
@@ -875,7 +1141,7 @@ def execute(ctx, starts, ops, mode, st, states=None):
 def _witness(ctx, starts, ops, mode, detail):
     w = {"declaration": ctx.source, "class": ctx.cls.__name__, "variant": ctx.v["name"], "options": ctx.optname,
          "starts": starts, "ops": [list(o) for o in ops], "mode": mode,
-         "op_values": {"T0": ctx.tv[0], "T1": ctx.tv[1], "D0": ctx.kv[0], "D1": ctx.kv[1], "TN": None,
+         "op_values": {"T0": ctx.tv[0], "T1": ctx.tv[1], "D0": ctx.kv[0], "D1": ctx.kv[1], "TN": None, "DN": None,
                        "CD": "packet = copy.deepcopy(packet)", "CP": "packet = pickle.loads(pickle.dumps(packet))",
                        "CC": "packet = packet.as_prototype().clone()"},
          "described": ctx.dname, "tracked": ctx.tname}
@@ -982,6 +1248,11 @@ NESTED_ALPHABET_TN = {
 }
 
 
+def nested_alphabet(v, kind, tn=False):
+    inner = INNER_OPS + (("DN",) if v.get("optdesc") else ()) + (("TN",) if tn else ())
+    return tuple((i, op) for i in ((0,) if kind == "ref" else (0, 1)) for op in inner) + (NPK,)
+
+
 class NestedCtx:
     def __init__(self, ictx, ocls, kind, ooptname, source, proto="class", proto_kw=None, shape="plain"):
         self.ictx = ictx
@@ -1004,7 +1275,10 @@ def nested_module_source(variant, optname, optsrc):
     iname = "C17N_%s_%s" % (variant["name"], optname)
     src = NHEADER + "class %s(Packet):\n    __bisturi__ = %s\n%s" % (iname, optsrc, variant["body"])
     outers = []
+    lite = bool(variant.get("nested_lite"))      # Part 12 inner classes: class prototype and tracked-keyword instance prototype only
     for proto, kw in prototype_keywords(variant):
+        if lite and proto not in ("class", "tracked"):
+            continue
         if kw is None:
             expr, tagp = iname, ""
         else:
@@ -1023,7 +1297,7 @@ def nested_module_source(variant, optname, optsrc):
 
     # packets that come to be as a copy of a DEFAULT object: optional Ref default, default elements of a repeated Ref
     for proto, kw in prototype_keywords(variant):
-        if proto not in ("consdefault", "cons", "incons"):
+        if lite or proto not in ("consdefault", "cons", "incons"):
             continue
         for ooptname, ooptsrc in OUTER_OPTSETS:
             oname = "%s_Opt_P%s_%s" % (iname, proto, ooptname)
@@ -1031,6 +1305,8 @@ def nested_module_source(variant, optname, optsrc):
                 oname, ooptsrc, iname, inst(kw))
             outers.append((oname, "ref", ooptname, proto, kw, "optdef"))
     for proto, kws in default_element_keywords(variant):
+        if lite:
+            continue
         for ooptname, ooptsrc in OUTER_OPTSETS:
             oname = "%s_Seq_%s_%s" % (iname, proto, ooptname)
             src += "\nclass %s(Packet):\n    __bisturi__ = %s\n    n = Int(1)\n    inners = Ref(%s).repeated(n, default=[%s])\n" % (
@@ -1066,7 +1342,7 @@ def define_nested_classes(run, scratch, count=True):
     from bisturi.packet import Packet
     from .. import render
     out = []
-    for v in PLAIN_VARIANTS:
+    for v in NESTED_VARIANTS:
         for optname, optsrc in OPTSETS:
             iname, outers, src = nested_module_source(v, optname, optsrc)
             module, path = render.load_source(src, scratch)
@@ -1218,6 +1494,7 @@ def execute_nested(nctx, start, ops, st):
                     st.add("%s_explicit_equal_reading_like_default_packet" % (
                         "copied_outer_inners" if copied else ORIGIN_STATE_COUNTERS[origin][0].split("_with_")[0]))
     unpacked = how == "unpack"
+    optdesc = ictx.optdesc
     generic_inner = ictx.optname == "generic"
     unpacked_explicit_proto = unpacked and dname in (start.get("proto") or {})
     if unpacked_explicit_proto:
@@ -1272,6 +1549,21 @@ def execute_nested(nctx, start, ops, st):
         if any(failed):
             st.add("nested_packs_after_failed_read_and_restore")
         want = bytes([prefix]) + b"".join(ictx.encode(r, t, o) for r, t, o in reads)
+        if optdesc:
+            # counting only: which state does the outer pack find each inner packet in
+            for i, p in enumerate(pk):
+                m = md[i]
+                if m[0]:
+                    if m[1] is None:
+                        st.add("nested_optional_described_packs_assigned_none_field_omitted")
+                    continue
+                st.add("nested_optional_described_packs_in_computed_state")
+                if getattr(p, ictx.hidden_name, 0) is None:
+                    st.add("nested_optional_described_packs_in_computed_state_with_hidden_none")
+                    st.add("nested_optional_described_%s_inner_packs_in_computed_state_with_hidden_none"
+                           % ("generic" if generic_inner else "generated"))
+                    if unpacked and not ictx.present(m[3]):
+                        st.add("nested_optional_described_packs_in_computed_state_after_unpack_condition_false")
         for attempt in ((0, 1) if (closing and nctx.kind == "ref") else (0,)):
             try:
                 b = outer.pack()
@@ -1361,10 +1653,18 @@ def execute_nested(nctx, start, ops, st):
                     m[0], m[1] = True, val
                     m[4] = True
                     m[6] = None
+                elif op == "DN":
+                    setattr(p, dname, None)
+                    m[0], m[1] = True, None
+                    m[4] = True
+                    m[6] = None
+                    st.add("nested_optional_described_none_assigned")
                 elif op == "DEL":
                     was = m[0]
                     if was and m[6]:
                         st.add(ORIGIN_EVENT_COUNTERS[m[6]]["deletes"])
+                    if optdesc and was and m[1] is None:
+                        st.add("nested_optional_described_deletes_while_assigned_none")
                     try:
                         delattr(p, dname)
                     except AttributeError:
@@ -1447,7 +1747,7 @@ def _nested_witness(nctx, start, ops, detail):
          "outer_kind": nctx.kind, "outer_options": nctx.ooptname, "variant": ictx.v["name"], "options": ictx.optname,
          "ref_prototype": nctx.proto, "ref_prototype_keywords": nctx.proto_kw, "outer_shape": nctx.shape,
          "start": start, "ops": [list(o) for o in ops], "mode": "pure",
-         "op_values": {"T0": ictx.tv[0], "T1": ictx.tv[1], "D0": ictx.kv[0], "D1": ictx.kv[1], "TN": None},
+         "op_values": {"T0": ictx.tv[0], "T1": ictx.tv[1], "D0": ictx.kv[0], "D1": ictx.kv[1], "TN": None, "DN": None},
          "described": ictx.dname, "tracked": ictx.tname,
          "note": "ops [i, OP] act on inner packet i; [-1, 'PK'] packs the OUTER packet; the closing observation packs the outer; "
                  "start 'default': Outer([prefix]) whose inner packet(s) are copies of the prototype / default object(s) built with the "
@@ -1463,6 +1763,51 @@ def _nested_witness(nctx, start, ops, detail):
     w.update(detail)
     return w
 
+
+
+UNJUDGED_DECLARATIONS = [
+    # (name, body, why the statement does not apply)
+    ("describe_then_when",
+     "    has = Int(1)\n    length = Int(1).describe(AutoLength('value')).when(has)\n    value = Data(until_marker=b'\\x00')\n",
+     "the class attribute is the Optional wrapper, which is not described (the descriptor sits on its anonymous prototype)"),
+    ("describe_then_repeated",
+     "    n = Int(1)\n    length = Int(1).describe(AutoLength('value')).repeated(n)\n    value = Data(until_marker=b'\\x00')\n",
+     "the class attribute is the Sequence wrapper, which is not described (the descriptor sits on its anonymous prototype)"),
+    ("repeated_then_describe_autolength",
+     "    n = Int(1)\n    length = Int(1).repeated(n).describe(AutoLength('value'))\n    value = Data(until_marker=b'\\x00')\n",
+     "the computed value is an int, which a repeated field cannot serialize: pack() raises, nothing to compare"),
+]
+
+
+def probe_unjudged_declarations(run, scratch):
+    """Declarations in which a wrapper is applied AFTER describe() (or the computed value cannot be a value of the field): the
+    library accepts them; what they do is recorded (run.cover) and counted, never judged.  The test the documentation gives for
+    'this is a described field' is isinstance(Class.name, AutoLength); it fails for the first two."""
+    from bisturi.descriptor import Auto
+    from .. import render
+    for name, body, why in UNJUDGED_DECLARATIONS:
+        for optname, optsrc in OPTSETS[:2]:
+            cname = "C17U_%s_%s" % (name, optname)
+            src = HEADER + "class %s(Packet):\n    __bisturi__ = %s\n%s" % (cname, optsrc, body)
+            try:
+                module, path = render.load_source(src, scratch)
+                cls = getattr(module, cname)
+            except BaseException as e:
+                run.count("unjudged_declarations_rejected_by_the_library")
+                run.cover("unjudged_declarations", "%s/%s: declaration raised %s" % (name, optname, type(e).__name__))
+                continue
+            is_desc = isinstance(cls.__dict__.get("length"), Auto)
+            obs = []
+            for label, fn in (("C(value=b'ab').length", lambda: cls(value=b"ab").length),
+                              ("C(value=b'ab').pack()", lambda: cls(value=b"ab").pack())):
+                try:
+                    obs.append("%s -> %r" % (label, fn()))
+                except Exception as e:
+                    obs.append("%s raised %s" % (label, type(e).__name__))
+            run.count("unjudged_declarations_observed")
+            run.count("unjudged_declarations_class_attribute_is_%s" % ("a_descriptor" if is_desc else "not_a_descriptor"))
+            run.cover("unjudged_declarations", "%s/%s: class attribute is %sa descriptor; %s; not judged: %s" % (
+                name, optname, "" if is_desc else "NOT ", "; ".join(obs), why))
 
 
 def _has_tn(ops):
@@ -1496,10 +1841,10 @@ def fail_start_indices(v, quick):
     return [0, 2, 3, 5, 6]
 
 
-def sampled_two_packet_history(rng, lo, hi):
-    """A seeded two-packet history over the 16 operations that contains TN and reads (weighted towards TN / RD / T0)."""
+def sampled_two_packet_history(rng, lo, hi, alphabet=None):
+    """A seeded two-packet history over the 16 (18 with DN) operations that contains TN and reads (weighted towards TN / RD / T0)."""
     n = rng.randint(lo, hi)
-    weighted = TWO_OPS8 + tuple((i, op) for i in (0, 1) for op in ("TN", "RD", "RD", "T0"))
+    weighted = (alphabet or TWO_OPS8) + tuple((i, op) for i in (0, 1) for op in ("TN", "RD", "RD", "T0"))
     ops = [weighted[rng.randrange(len(weighted))] for _ in range(n)]
     if not _has_tn(ops):
         ops[rng.randrange(max(1, n - 1))] = (rng.randrange(2), "TN")
@@ -1541,6 +1886,18 @@ def run(run):
     try:
         ctxs = define_classes(run, scratch, count=(shard == 0))
         nctxs = define_nested_classes(run, scratch, count=(shard == 0))
+        if shard == 0:
+            probe_unjudged_declarations(run, scratch)
+        for ctx in ctxs:
+            # Part 12 premise: the attribute of the class IS the descriptor (the documentation's own test)
+            if ctx.group in NEW_GROUPS and shard == 0:
+                from bisturi.descriptor import Auto as _Auto
+                holder = ctx.cls
+                if isinstance(getattr(holder, ctx.dname, None), _Auto):
+                    run.count("wrapped_described_class_attribute_is_descriptor")
+                else:
+                    run.inconclusive_because("%s.%s is not an Auto descriptor: the wrapped described field is not described at all"
+                                             % (ctx.cls.__name__, ctx.dname))
         st = Stats()
         gst = {}       # statistics of the grouped variants, by (group, code path of the class)
         states = set()
@@ -1561,11 +1918,14 @@ def run(run):
             ns = len(starts_for(v))
             for si in range(ns):
                 for mode in ("pure", "observed"):
-                    for fo in range(len(OPS)):
+                    if (quick and mode == "observed" and ctx.group in NEW_GROUPS and not v.get("deep")
+                            and ctx.optname == "novector"):
+                        continue    # quick tier: the shallow Part 12 declarations under vectorize=False run in pure mode only
+                    for fo in range(len(ctx.ops)):
                         jobs.append((1, ci, si, mode, fo))
             if v.get("plain") or v.get("two"):
                 for si in range(3):
-                    for fo in range(len(TWO_OPS)):
+                    for fo in range(2 * len(ctx.ops)):
                         jobs.append((2, ci, si, "pure", fo))
             # Part 10: the fixed script (change tracked, read, pack, delete, read) after every start, also through each copy
             for si in range(ns):
@@ -1576,40 +1936,58 @@ def run(run):
                     for cop in COPY_OPS:
                         for fo in range(len(OPS) + 1):
                             jobs.append((9, ci, si, cop, fo))
-            if v.get("positioned"):
+            if v.get("positioned") or v.get("optpos"):
                 continue
+            if quick and ctx.group in NEW_GROUPS and not v.get("deep"):
+                continue        # quick tier: failing computed reads only for the deep Part 12 declarations
             for si in fail_start_indices(v, quick):
-                for fo in range(len(OPS8)):
+                for fo in range(len(ctx.ops) + 1):
                     jobs.append((6, ci, si, "pure", fo))
             if v.get("plain") or v.get("two"):
                 for si in range(3):
-                    for fo in range(len(TWO_OPS8)):
+                    for fo in range(2 * (len(ctx.ops) + 1)):
                         jobs.append((7, ci, si, "pure", fo))
                     jobs.append((7, ci, si, "sampled", -1))
 
         for ni, nctx in enumerate(nctxs):
             if quick and nctx.proto_kw is not None and nctx.ictx.optname == "novector":
                 continue        # quick tier: instance prototypes with generic and default inner classes only
+            if quick and nctx.ictx.optdesc and nctx.ictx.optname == "novector":
+                continue        # quick tier: nested optional described field with generic and default inner classes only
             nstarts = nested_starts(nctx)
             for si in range(len(nstarts)):
-                for fo in range(len(NESTED_ALPHABET[nctx.kind])):
+                for fo in range(len(nested_alphabet(nctx.ictx.v, nctx.kind))):
                     jobs.append((3, ni, si, "pure", fo))
                 jobs.append((11, ni, si, "script", -1))      # the fixed script on every inner packet
-            if nctx.proto_kw is None:
+            if nctx.proto_kw is None and not (quick and nctx.ictx.optname == "novector"):
+                # (quick tier: nested failing reads with generic and default inner classes only; rebalanced for Part 12)
                 for si in range(len(nstarts)):
                     if nstarts[si].get("copy"):
                         continue
-                    for fo in range(len(NESTED_ALPHABET_TN[nctx.kind])):
+                    if quick and nctx.ictx.optdesc and nctx.kind != "ref":
+                        continue    # quick tier: nested failing reads of the optional described inner through Ref(Inner) only
+                    for fo in range(len(nested_alphabet(nctx.ictx.v, nctx.kind, True))):
                         jobs.append((8, ni, si, "pure", fo))
 
         stop = False
         samples = 0
         nested_samples = 0
+        cpu_by_part = {}
+        tick = [None, time.process_time()]
+
+        def account(part):
+            now = time.process_time()
+            if tick[0] is not None:
+                cpu_by_part[tick[0]] = cpu_by_part.get(tick[0], 0.0) + now - tick[1]
+            tick[0], tick[1] = part, now
+
         for ji, (part, ci, si, mode, fo) in enumerate(jobs):
             if nshards > 1 and ji % nshards != shard:
                 continue
             if stop:
                 break
+            account("part%02d%s" % (part, "_part12_layouts" if (part not in (3, 8, 11) and ctxs[ci].group in NEW_GROUPS)
+                                    or (part in (3, 8, 11) and nctxs[ci].ictx.optdesc) else ""))
             if part == 11:
                 # fixed script on every inner packet: change the tracked field, read, pack the outer, delete, read
                 nctx = nctxs[ci]
@@ -1634,12 +2012,14 @@ def run(run):
                 nctx = nctxs[ci]
                 start = nested_starts(nctx)[si]
                 tn_only = part == 8
-                alphabet = (NESTED_ALPHABET_TN if tn_only else NESTED_ALPHABET)[nctx.kind]
+                alphabet = nested_alphabet(nctx.ictx.v, nctx.kind, tn_only)
                 first = alphabet[fo]
                 keybase = "%d|%s|%d|" % (part, nctx.ocls.__name__, si)
                 run.cover("nested_starts", "%s/%s: %s" % (nctx.ictx.v["name"], nctx.kind, start))
                 n_exec = 0
                 maxlen = (LF3 if tn_only else (L3 if nctx.proto_kw is None else L3I))[nctx.kind]
+                if nctx.ictx.optdesc and nctx.kind == "seq" and not quick:
+                    maxlen = min(maxlen, 3)         # 15 / 17 operations on two optional described inners: thorough bound 3
                 if not tn_only:
                     if start.get("short"):
                         maxlen = LSHORT[nctx.kind]
@@ -1672,6 +2052,9 @@ def run(run):
                     if over_budget():
                         stop = True
                         break
+                if nctx.ictx.optdesc:
+                    run.count("nested_optional_described_histories", n_exec)
+                    run.count("nested_optional_described_histories_%s" % nctx.kind, n_exec)
                 if tn_only:
                     run.count("nested_failing_read_histories", n_exec)
                     run.count("nested_failing_read_histories_%s" % nctx.kind, n_exec)
@@ -1713,6 +2096,27 @@ def run(run):
                                 if run.counters["violations"] > 20:
                                     stop = True
                 run.count("explicit_equal_script_histories", n_exec)
+                if ctx.optdesc:
+                    # optional described field: assign None ("absent"), read, pack, delete, read, pack - directly and with a
+                    # copy taken before the assignment / between the assignment and the delete
+                    n_od = 0
+                    scripts = [("DN",) + SCRIPT_TAIL + ("PK",), ("DN", "DEL", "PK", "T0", "PK"), ("PK", "DN", "DEL", "PK")]
+                    for c in ((COPY_OPS[si % 3],) if quick else COPY_OPS):      # quick: one way of copying per start, rotating
+                        scripts.append((c, "DN") + SCRIPT_TAIL + ("PK",))
+                        scripts.append(("DN", c, "RD", "DEL", "PK"))
+                        scripts.append(("DN", "DEL", c, "PK", "T1", "PK"))
+                    for sc in scripts:
+                        ops = tuple((0, o) for o in sc)
+                        for smode in ("pure", "observed"):
+                            run.case(key="10|%s|%d|%s|%s" % (ctx.cls.__name__, si, smode, ",".join(sc)), nontrivial=True)
+                            n_od += 1
+                            bad = execute(ctx, starts, ops, smode, cur_st, states)
+                            if bad is not None:
+                                run.violation(bad[0], _witness(ctx, starts, ops, smode, bad[1]), None)
+                                if run.counters["violations"] > 20:
+                                    stop = True
+                    run.count("optional_described_none_script_histories", n_od)
+                    n_exec += n_od
                 run.count("histories_%s_%s" % (v["name"], ctx.optname), n_exec)
                 continue
             if part == 9:
@@ -1727,32 +2131,37 @@ def run(run):
                 mode = "pure"
             elif part == 1:
                 starts = [starts_for(v)[si]]
-                alphabet = tuple((0, op) for op in OPS)
+                alphabet = tuple((0, op) for op in ctx.ops)
                 lmax = L
                 if quick and ctx.optname == "novector":
                     lmax = L - 1          # quick tier: the non-vectorised generated code gets one operation less
                 lengths = range(1, lmax + 1) if mode == "pure" else (LOBS,)
                 counter = "histories_pure" if mode == "pure" else "histories_observed"
                 if short:
-                    lengths = range(1, LP + 1) if mode == "pure" else (LP - 1,)
+                    lp = LP
+                    if group in NEW_GROUPS:
+                        # Part 12 layouts: thorough one operation less than the other short-bound layouts (8 operations);
+                        # quick: the full short bound only for the "deep" declarations
+                        lp = LP - 1 if (not quick or not v.get("deep") or ctx.optname == "novector") else LP
+                    lengths = range(1, lp + 1) if mode == "pure" else (max(2, lp - 1),)
                     counter = "positioned_described_histories" if group == "positioned" else "%s_histories" % group
             elif part == 2:
                 starts = two_packet_starts(v)[si]
-                alphabet = TWO_OPS
+                alphabet = two_ops_for(v)
                 lmax = L2
-                if quick and (ctx.optname == "novector" or group in ("optional", "embedded")):
-                    lmax = L2 - 1
+                if (quick and (ctx.optname == "novector" or group in ("optional", "embedded"))) or group in NEW_GROUPS:
+                    lmax = L2 - 1       # Part 12 layouts: one operation less in both tiers (16 / 14 operations)
                 lengths = range(1, lmax + 1)
                 counter = "two_packet_histories"
             elif part == 6:
                 starts = [starts_for(v)[si]]
-                alphabet = tuple((0, op) for op in OPS8)
+                alphabet = tuple((0, op) for op in ops_for(v, True))
                 lengths = range(1, LF + 1)
                 counter = "failing_read_histories"
                 need_tn = True
             else:
                 starts = two_packet_starts(v)[si]
-                alphabet = TWO_OPS8
+                alphabet = two_ops_for(v, True)
                 lengths = range(1, LF2 + 1)
                 counter = "failing_read_two_packet_histories"
                 need_tn = True
@@ -1766,7 +2175,7 @@ def run(run):
                 rng = common.rng_for(run.seed, "c17", "two-packet-failing", ctx.cls.__name__, si)
                 counter = "failing_read_two_packet_sampled_histories"
                 for k in range(NF2):
-                    ops = sampled_two_packet_history(rng, LF2 + 1, LF2 + 3)
+                    ops = sampled_two_packet_history(rng, LF2 + 1, LF2 + 3, alphabet)
                     run.case(key=keybase + ",".join("%d%s" % o for o in ops), nontrivial=True)
                     n_exec += 1
                     bad = execute(ctx, starts, ops, "pure" if k % 3 else "observed", cur_st, states)
@@ -1810,8 +2219,13 @@ def run(run):
                     break
             run.count(counter, n_exec)
             run.count("histories_%s_%s" % (v["name"], ctx.optname), n_exec)
-            if group in ("embedded", "optional", "chained") and part != 1:
+            if group in ("embedded", "optional", "chained") + NEW_GROUPS and part != 1:
                 run.count("%s_%s" % (group, counter), n_exec)
+            if part == 1 and v.get("optpos"):
+                run.count("positioned_optional_described_histories", n_exec)
+            if part == 1 and v.get("embedded") and group == "optional_described":
+                run.count("embedded_optional_described_histories", n_exec)
+        account(None)
         st.flush(run)
         for (group, path), ps in sorted(gst.items()):
             c = ps.c
@@ -1823,6 +2237,9 @@ def run(run):
                 for name in ("packs_auto_after_tracked_change", "packs_auto_after_unpack_then_tracked_change",
                              "packs_explicit_inconsistent", "deletes_while_explicit", "reads_compared", "packs_compared"):
                     run.count("%s_%s_%s" % (group, path, name), c.get(name, 0))
+                if group == "optional_described":
+                    for name in OD_PATH_COUNTERS:
+                        run.count(name.replace("optional_described_", "optional_described_%s_" % path, 1), c.get(name, 0))
             ps.flush(run)
         for s in states:
             run.cover("model_state_x_operation", "explicit=%s consistent=%s tracked_len=%d op=%s" % s)
@@ -1843,6 +2260,7 @@ def run(run):
             run.extra["max_nested_history_length_copied_outer"] = dict(LSHORT)
             run.extra["fixed_script"] = "[copy] T0|T1, RD, PK, DEL, RD after every start (single packet: pure and observed mode)"
             run.extra["cpu_seconds"] = round(time.process_time() - c0, 1)
+            run.extra["cpu_seconds_by_part_shard0"] = {k: round(x, 1) for k, x in sorted(cpu_by_part.items())}
             if samples == 0 and ctxs:
                 ctx = ctxs[1]
                 ops = tuple((0, o) for o in ("D1", "PK", "T1", "DEL"))
